@@ -121,7 +121,7 @@ def run_worker(run, jobs, so_path):
     n = len(jobs)
     results = [None] * n
     crashes = []
-    start, restarts = 0, 0
+    start, restarts, nbad = 0, 0, {}
     worker = os.path.join(os.path.dirname(os.path.abspath(__file__)), "c15_worker.py")
     env = dict(os.environ)
     env["VERIF_REPO"] = vlib.REPO
@@ -192,10 +192,12 @@ def run_worker(run, jobs, so_path):
         jobs[start + marker[0]]["job"].setdefault("skip", []).append(marker[1])
         start += marker[0]
         restarts += 1
-        if restarts > 25:
-            run.broken.append({"kind": "worker_failed", "where": ["harness/c15_worker.py"],
-                               "log": "more than 25 crashes/hangs of the implementation; remaining %d jobs not run" % (n - start)})
-            break
+        nbad[marker[1]] = nbad.get(marker[1], 0) + (5 if hung else 1)
+        if nbad[marker[1]] >= 10:
+            # two hangs or ten crashes of one back-end: stop calling it (the failing inputs found so far are reported)
+            for j in jobs[start:]:
+                j["job"].setdefault("skip", []).append(marker[1])
+            run.notes.append("back-end %s not called on the jobs after #%d: it %s repeatedly" % (marker[1], start, how))
     return results, crashes
 
 
